@@ -167,6 +167,11 @@ pub fn do_dispatch(el: &mut EventLoop<'static, ()>, timeout: Option<Duration>) -
                     // Idle::cancel is not one of the handle operations C08 lists; cancelling from idle callbacks is C13's
                     w.alarm("C13.cancel_from_idle", "running-idle-cancels-itself", format!("an idle callback cancelling its own handle made dispatch panic at {}: {}", loc, msg));
                 } else {
+                    if w.prop != "C08" && !w.prop.is_empty() {
+                        // whatever the property: a dispatch that panics inside calloop has not kept it
+                        let cl = format!("{}.no_panic", w.prop);
+                        w.alarm(&cl, &format!("panic-at-{}", location_culprit(&loc)), format!("dispatch panicked at {}: {}", loc, msg));
+                    }
                     w.alarm("C08.panic", &format!("panic-at-{}", location_culprit(&loc)), format!("dispatch panicked at {}: {}", loc, msg));
                     if loc.contains("loop_logic.rs") && msg.contains("unreachable") {
                         w.alarm("C15.no_later_panic", "dispatch-panics-after-failed-registration", format!("dispatch panicked at {}: {}", loc, msg));
@@ -576,6 +581,7 @@ fn run_inner(h: &History, cfg: &RunCfg) -> Outcome {
         w.trace_on = cfg.trace;
         w.allow_update_disabled = h.profile == "C07" || h.profile == "C05" || h.profile == "C14";
         w.matrix = h.profile == "C08";
+        w.prop = cfg.prop.clone();
     });
     calloop::verif::set_yield_hook(Some(hist_hook));
     let mut steps_run = 0;
